@@ -28,7 +28,7 @@ struct Plan {
 template<class V> struct Plan<V, 32> {
     typedef typename V::scalar S;
     static void run(const std::vector<S>& K) {
-        if (opt().thorough) run_ops<V>(erase<S>(DomFull1<S>()), K);
+        if (exh32()) run_ops<V>(erase<S>(DomFull1<S>()), K);
         else run_ops<V>(erase<S>(DomList1<S>(as_scalars<S>(alphabet_L(32, true)), "L32")), K);
     }
 };
